@@ -80,6 +80,10 @@ C['C20'] = dict(level=MC, engine='E2+E1', design='§2 C20',
    technique='the real code generator writes a module per block; the imported module`s RunOneStep is executed symbolically (symx, z3 reals) with per-path SMT post-conditions; z3 normal-form equivalence of the generated Iterator body with the parser equations',
    text='For six block shapes (with/without user time variable, lags, initial conditions, constants, one or two exogenous lists, time used in an equation) IterativeMachineGenerator.main() writes a module that is imported and run for two periods with previous-period values and exogenous paths symbolic; every path either raises the module`s non-convergence error or z3 shows every block equation holds within gain*tolerance with lags from its own previous period and exogenous values from the supplied paths; the Iterator body equals the parser equations; the table header lists the time axis first and each non-lagged variable once.',
    note='Modules are generated into a scratch directory and removed. Block grammar bounded (<= 2 simultaneous variables).')
+C['C03'] = dict(level=TV, engine='E1+E3', design='§2 C03',
+   technique='SMT two-sided entailment between the reduced and unreduced systems produced by the real parser/reducer over an enumerated block grammar; CrossHair symbolic execution of SetInitialConditions for k=0',
+   text='For every block of a grammar (three prefix-sharing variables x 14 right-hand-side shapes incl. aliases of variables/exogenous/lagged/constants, signed and spaced aliases, products, user functions, lags, initial conditions; plus 4-variable alias/decorative chains) the real ParseString/ValidateInputs/EquationReduction run and z3 shows original |= every reduced equation and reduced |= every original equation with lagged and exogenous values free, plus structural side conditions (same variables once each, simultaneous equations mention no decorative variable, decorative dependencies acyclic). k=0: CrossHair runs the real SetInitialConditions with reduction on and off on 8 block shapes with symbolic initial-condition and exogenous values and must confirm equal time-zero values.',
+   note='Numerical agreement of the two iterative solves is outside (differs at tolerance level by construction). Equality loops are refused with ValueError (outcome).')
 PENDING = {}
 ALL = ['C%02d' % i for i in range(1, 21)]
 checks = []
